@@ -6,6 +6,7 @@ import (
 	"go/types"
 	"math/big"
 	"sort"
+	"strconv"
 	"strings"
 
 	"golang.org/x/tools/go/ssa"
@@ -767,4 +768,145 @@ func first(xs []string) string {
 		return ""
 	}
 	return xs[0]
+}
+
+// runR1816 (R18.16): every reported percentile is one of the period's observations only if every index the percentile
+// function uses lies inside the sorted window. An index into the window must be a proper fraction of the window's
+// length - (len(w) * a) / b with 0 <= a < b, a an interval (the loop counter), b a constant; or
+// int(math.Floor(float64(len(w)) * c1 / c2)) with c1 < c2 - which is below len(w) for every non-empty window; an
+// index into the fixed result array must stay below its length for every value of the loop counter. Anything else is
+// undecided. (An index one past the end panics in the metrics endpoint; the percentiles are then not reported at all.)
+func runR1816(c *core.Ctx) {
+	c.Rule("R18.16", "every index the percentile function uses lies inside the sorted window (a proper fraction of its length) or inside the fixed result array, for every window length and every value of the loop counter", 4)
+	var fn *ssa.Function
+	for _, f := range pkgFuncs(c, "metrics") {
+		if f.Signature.Results().Len() != 1 {
+			continue
+		}
+		if arr, ok := f.Signature.Results().At(0).Type().Underlying().(*types.Array); !ok || !types.Identical(arr.Elem().Underlying(), types.Typ[types.Uint64]) {
+			continue
+		}
+		sorts := false
+		ssax.Instrs(f, func(ins ssa.Instruction) {
+			if cc := ssax.CallOf(ins); cc != nil && strings.HasPrefix(ssax.CalleeName(cc), "sort.") {
+				sorts = true
+			}
+		})
+		if sorts {
+			fn = f
+		}
+	}
+	if fn == nil {
+		c.Undecided("R18.16", "metrics#percentile-function", "-", "no function that sorts a window and returns a fixed array of values found")
+		return
+	}
+	word := int64(8)
+	if strings.Contains(c.Config, "386") {
+		word = 4
+	}
+	isLenOf := func(v ssa.Value, s ssa.Value) bool {
+		call, ok := ssax.Unwrap(v).(*ssa.Call)
+		if !ok {
+			return false
+		}
+		b, isB := call.Call.Value.(*ssa.Builtin)
+		return isB && b.Name() == "len" && call.Call.Args[0] == s
+	}
+	counts := map[string]int{}
+	ssax.Instrs(fn, func(ins ssa.Instruction) {
+		ia, ok := ins.(*ssa.IndexAddr)
+		if !ok {
+			return
+		}
+		pos := c.P.Pos(ia.Pos())
+		ev := &ivEval{c: c, word: word, at: ia.Block()}
+		if pt, isPtr := ia.X.Type().Underlying().(*types.Pointer); isPtr {
+			arr, isArr := pt.Elem().Underlying().(*types.Array)
+			if !isArr {
+				return
+			}
+			key := ordinalKey(counts, core.FuncName(fn)+"#result-index")
+			lo, hi, ok := ev.eval(ia.Index, 0)
+			switch {
+			case !ok:
+				c.Undecided("R18.16", key, pos, "no bounds for the index into the result array")
+			case lo.Sign() < 0 || hi.Cmp(big.NewInt(arr.Len())) >= 0:
+				c.Violate("R18.16", key, pos, fmt.Sprintf("the index into the result array ranges over [%v, %v], the array has %d elements: the percentile function panics", lo, hi, arr.Len()))
+			default:
+				c.OK("R18.16", key, pos, fmt.Sprintf("index in [%v, %v] of %d", lo, hi, arr.Len()))
+			}
+			return
+		}
+		if _, isSlice := ia.X.Type().Underlying().(*types.Slice); !isSlice {
+			return
+		}
+		key := ordinalKey(counts, core.FuncName(fn)+"#window-index")
+		idx := ia.Index
+		// integer form: (len(w) * a) / b
+		if q, ok := idx.(*ssa.BinOp); ok && q.Op == token.QUO {
+			if m, ok := q.X.(*ssa.BinOp); ok && m.Op == token.MUL {
+				a := m.Y
+				if isLenOf(m.Y, ia.X) {
+					a = m.X
+				} else if !isLenOf(m.X, ia.X) {
+					a = nil
+				}
+				if a != nil {
+					alo, ahi, okA := ev.eval(a, 0)
+					blo, bhi, okB := ev.eval(q.Y, 0)
+					switch {
+					case !okA || !okB || blo.Cmp(bhi) != 0:
+						c.Undecided("R18.16", key, pos, "numerator or denominator of the fraction has no bounds")
+					case alo.Sign() < 0 || ahi.Cmp(blo) >= 0:
+						c.Violate("R18.16", key, pos, fmt.Sprintf("the window is indexed with len*a/%v where a ranges over [%v, %v]: for a >= %v the index reaches the window's length - the percentile function panics, nothing is reported", blo, alo, ahi, blo))
+					default:
+						c.OK("R18.16", key, pos, fmt.Sprintf("index = len*a/%v with a in [%v, %v]: below the window's length", blo, alo, ahi))
+					}
+					return
+				}
+			}
+		}
+		// float form: int(math.Floor(float64(len(w)) * c1 / c2))
+		if cv, ok := idx.(*ssa.Convert); ok {
+			if fl, ok := cv.X.(*ssa.Call); ok && ssax.CalleeName(&fl.Call) == "math.Floor" {
+				if q, ok := fl.Call.Args[0].(*ssa.BinOp); ok && q.Op == token.QUO {
+					if m, ok := q.X.(*ssa.BinOp); ok && m.Op == token.MUL {
+						c1, ok1 := constFloat(m.Y)
+						c2, ok2 := constFloat(q.Y)
+						if conv, isConv := m.X.(*ssa.Convert); isConv && isLenOf(conv.X, ia.X) && ok1 && ok2 && c2 > 0 {
+							c.Check(c1 >= 0 && c1/c2 <= 0.99999, "R18.16", key, pos, fmt.Sprintf("index = floor(len*%v/%v): below the window's length", c1, c2),
+								fmt.Sprintf("the window is indexed with floor(len*%v/%v): not below the window's length - the percentile function panics, nothing is reported", c1, c2))
+							return
+						}
+					}
+				}
+			}
+		}
+		if k, isC := ssax.ConstInt(idx); isC {
+			c.Check(k == 0, "R18.16", key, pos, "first element of a non-empty window", fmt.Sprintf("the window is indexed with the constant %d: it may hold fewer observations", k))
+			return
+		}
+		c.Undecided("R18.16", key, pos, "the index into the window is not a recognised fraction of its length")
+	})
+}
+
+func constFloat(v ssa.Value) (float64, bool) {
+	k, ok := v.(*ssa.Const)
+	if !ok || k.Value == nil {
+		return 0, false
+	}
+	f, err := strconv.ParseFloat(k.Value.ExactString(), 64)
+	if err != nil {
+		// rationals print as a/b
+		parts := strings.Split(k.Value.ExactString(), "/")
+		if len(parts) == 2 {
+			a, e1 := strconv.ParseFloat(parts[0], 64)
+			b, e2 := strconv.ParseFloat(parts[1], 64)
+			if e1 == nil && e2 == nil && b != 0 {
+				return a / b, true
+			}
+		}
+		return 0, false
+	}
+	return f, true
 }
